@@ -46,6 +46,46 @@ T = {
    demo="store/seed_c02_demo_test.go: go test -run Test_SeedC02 ./store/",
    caught_by="see DESIGN.md Appendix D"),
 }
+
+T.update({
+ "C24-1": dict(property="C24", summary="Queue.Write releases seqMu before a blocking send when the batch channel is full",
+   needs=">= 2 concurrent writers, queue at maxSize at the moment of the write, second writer slipping between Unlock and the channel send: write order / batch sequence numbers go backwards",
+   demo="queue/seed_c24_demo_test.go: go test -run Test_SeedC24 ./queue/",
+   caught_by="C24 quick without changes (keys order:not-write-order, batch:seq-not-increasing; 760 violations)"),
+ "C34-1": dict(property="C34", summary="MultiRSW.BeginWriteBlocking split into two sequential wait loops; owner not re-checked after readers drain",
+   needs="one reader holding the lock and two blocked writers (or a blocked writer plus a non-blocking BeginWrite) when the reader leaves: two writers hold the lock",
+   demo="internal/rsync/seed_c34_demo_test.go: go test -run Test_SeedC34 ./internal/rsync/",
+   caught_by="C34 quick without changes (keys mrsw:two-writers, mrsw:occupancy, mrsw:reader-with-writer, mrsw:panic)"),
+ "C07-1": dict(property="C07", summary="plan.Executor.Checkpoint: leftover data.db-wal handling moved below the 'no WAL left' early return",
+   needs="crash inside the multi-WAL checkpoint exactly at the last WAL (after its rename, before CheckpointRemove), then restart: the newest snapshot silently loses that WAL's data",
+   demo="snapshot/seed_c07_demo_test.go: go test -run Test_SeedC07 ./snapshot/",
+   caught_by="C07 quick without changes (keys restored-content-changed:after=plan.ckpt.after_rename and later points)"),
+ "C08-1": dict(property="C08", summary="Upgrade8To10 resume decides completion with LastOpDone (last op is RemoveAll(old), commit point is the rename before it)",
+   needs="crash after the plan's rename and before the old directory is removed, then restart: the replay fails with 'file exists' on every start",
+   demo="snapshot/seed_c08_demo_test.go: go test -run Test_SeedC08 ./snapshot/",
+   caught_by="C08 quick without changes (key restart-fails:upgrade8to10:resume-after-rename:old-dir-present - the key of the defect fixed earlier, reported as VIOLATION again because fixed entries suppress nothing)"),
+ "C14-1": dict(property="C14", summary="Rewriter.Visit returns a nil visitor on OrderingTerm, so date/time calls at 'now' inside ORDER BY are not rewritten",
+   needs="a date/time function with a 'now' time value inside an ORDER BY term (SELECT, sub-select, DELETE..ORDER BY..LIMIT, window OVER (ORDER BY ...))",
+   demo="command/sql/seed_c14_demo_test.go: go test -run Test_SeedC14 ./command/sql/",
+   caught_by="C14 quick (keys nondeterministic:date/now@orderby, @winorder) - after ORDER BY positions were rendered as row-and-clock dependent terms (ts < date('now')); the first version used a per-statement constant term that could not change the row order and missed it"),
+ "C15-1": dict(property="C15", summary="IsBreakingPragma fast path requires a plain space after the PRAGMA keyword",
+   needs="a protected PRAGMA whose keyword is followed by a tab / newline / CR / form feed",
+   demo="db/seed_c15_demo_test.go: go test -run Test_SeedC15 ./db/",
+   caught_by="C15 quick without changes (keys bypass:<pragma>:plain@execute|@ro-connection...)"),
+ "C16-1": dict(property="C16", summary="Store.isStaleRead passes raft's AppliedIndex (handed to the FSM) instead of the FSM index to the staleness rule",
+   needs="none + freshness + strict read on a follower in contact with the leader while a committed command is handed to but not yet applied by the FSM and the last applied entry lagged more than the bound",
+   demo="store/seed_c16_demo_test.go: go test -run Test_SeedC16 ./store/",
+   caught_by="C16 quick without changes (keys none:stale-served:strict-behind-lag-over-bound:follower|nonvoter)"),
+ "C32-1": dict(property="C32", summary="Store.Join 'continue's instead of removing first when the same ID re-joins at a new address",
+   needs="a voter re-joining with a new address and asking, in the same join, to become a non-voter: acknowledged but still a voter",
+   demo="store/seed_c32_demo_test.go: go test -run Test_SeedC32 ./store/",
+   caught_by="C32 quick without changes (join-ack:wrong-suffrage keys)"),
+ "C13-1": dict(property="C13", summary="executeWithConn.handleError no longer stops after the ROLLBACK issued for RollbackOnError",
+   needs="RollbackOnError without Transaction on the execute path, a multi-statement request with a failing statement followed by another write",
+   demo="db/seed_c13_demo_test.go: go test -run Test_SeedC13 ./db/",
+   caught_by="C13 quick without changes (151 violations)"),
+})
+
 root='/verif/seeded'
 for k,v in T.items():
     d=os.path.join(root,k)
